@@ -26,7 +26,7 @@ package vecengine
 //@ // representation invariant of the branches info for n validators: one creator and one last sequence per branch,
 //@ // the first n branches are the validators' own, every creator index is a validator index
 //@ spec biwf(bi *BranchesInfo, n int) bool = bi != nil && len(bi.BranchIDCreatorIdxs) == len(bi.BranchIDLastSeq) && len(bi.BranchIDCreatorIdxs) >= n && len(bi.BranchIDCreatorIdxs) <= 536870911 && len(bi.BranchIDByCreators) == n &&
-//@   forall(br, 0, len(bi.BranchIDCreatorIdxs), bi.BranchIDCreatorIdxs[br] < n)
+//@   forall(br, 0, len(bi.BranchIDCreatorIdxs), bi.BranchIDCreatorIdxs[br] < n) && forall(i, 0, n, bi.BranchIDCreatorIdxs[i] == i)
 //@
 //@ func (*Engine).AtLeastOneFork
 //@   requires vi != nil && vi.bi != nil && valid(vi.validators) && len(vi.bi.BranchIDCreatorIdxs) <= 4294967295
@@ -103,7 +103,7 @@ package vecengine
 //@ spec hv(h HighestBeforeI) []byte = deref(unbox(h, "*vecfc.HighestBeforeSeq"))
 //@
 //@ // branch lists: every listed branch exists and belongs to the creator it is listed under
-//@ spec bilists(bi *BranchesInfo, n int) bool = forall(c, 0, n, forall(j, 0, len(bi.BranchIDByCreators[c]), bi.BranchIDByCreators[c][j] < len(bi.BranchIDCreatorIdxs) && bi.BranchIDCreatorIdxs[bi.BranchIDByCreators[c][j]] == c))
+//@ spec bilists(bi *BranchesInfo, n int) bool = forall(c, 0, n, forall(j, 0, len(bi.BranchIDByCreators[c]), bi.BranchIDByCreators[c][j] < len(bi.BranchIDCreatorIdxs) && bi.BranchIDCreatorIdxs[bi.BranchIDByCreators[c][j]] == c)) && forall(c, 0, n, len(bi.BranchIDByCreators[c]) >= 1 && bi.BranchIDByCreators[c][0] == c)
 //@
 //@ // bisep: the slices of the branches info do not share storage (each was allocated on its own)
 //@ spec bisep(bi *BranchesInfo, n int) bool = (arrof(bi.BranchIDLastSeq) != arrof(bi.BranchIDCreatorIdxs) || arrof(bi.BranchIDLastSeq) == 0) &&
